@@ -679,9 +679,33 @@ func (db *DB) searchAll(o Object, field, operator string, value interface{}, con
 		return &Search{db: db, err: err}
 	}
 
-	// we go through the iterator
 	fp := fieldPath(field)
 	searchType := search.valueTypeString()
+
+	// we validate search arguments before going through the collection so
+	// that a search which cannot be evaluated fails the same way as on an
+	// indexed field, whatever the collection contains (even nothing)
+	if zero, ok := fieldByName(o, fp); !ok {
+		return &Search{db: db, err: fmt.Errorf("%w %s", ErrUnkownField, field)}
+	} else if test, err := newIndexedField(zero, 0); err != nil {
+		return &Search{db: db, err: err}
+	} else if fieldType := test.valueTypeString(); fieldType != searchType {
+		return &Search{db: db, err: fmt.Errorf("%w, cannot cast %T(%v) to %s", ErrCasting, search.Value, search.Value, fieldType)}
+	}
+
+	switch operator {
+	case "!=", "=", ">", ">=", "<", "<=":
+	case "~=":
+		if sval, ok := search.Value.(string); ok {
+			if _, err = regexp.Compile(sval); err != nil {
+				return &Search{db: db, err: err}
+			}
+		}
+	default:
+		return &Search{db: db, err: fmt.Errorf("%w %s", ErrUnkownSearchOperator, operator)}
+	}
+
+	// we go through the iterator
 
 	for obj, err := iter.next(); err == nil && err != ErrEOI; obj, err = iter.next() {
 		var test *indexedField
